@@ -255,6 +255,93 @@ def oracle_word(left, w, right, ty):
     return None
 
 
+# ---- (iv) configured lexers: "the first dictionary that lists it" for ANY registered dictionary list -----------------
+def keyword_dicts():
+    """The dictionaries of sqlparse.keywords in the registration order of default_initialization."""
+    return list(_lexer()._keywords)
+
+
+def config_lexer(dicts):
+    from sqlparse import lexer, keywords
+    lx = lexer.Lexer()
+    lx.clear()
+    lx.set_SQL_REGEX(keywords.SQL_REGEX)
+    for d in dicts:
+        lx.add_keywords(d)
+    return lx
+
+
+def dict_type_in(dicts, w):
+    from sqlparse import tokens as T
+    for d in dicts:
+        if w.upper() in d:
+            return d[w.upper()]
+    return T.Name
+
+
+def oracle_config(order, words, reuse=None):
+    """order: indices into keyword_dicts() (the registered list of this configuration); every word alone must be ONE
+    token typed by the dedicated rule or by the first dictionary of THIS configuration listing it, else Name.
+    reuse: an existing Lexer object to RE-configure (clear + set_SQL_REGEX + add_keywords) instead of a new one."""
+    from sqlparse import keywords
+    base = keyword_dicts()
+    dicts = [base[i] for i in order]
+    if reuse is None:
+        lx = config_lexer(dicts)
+    else:
+        lx = reuse
+        lx.clear()
+        lx.set_SQL_REGEX(keywords.SQL_REGEX)
+        for d in dicts:
+            lx.add_keywords(d)
+    for w in words:
+        want = dedicated_type(w) or dict_type_in(dicts, w)
+        got = list(lx.get_tokens(w))
+        if len(got) != 1 or got[0][1] != w or got[0][0] is not want:
+            return {'input': [ord(c) for c in w], 'kind': 'config', 'order': list(order), 'reused_instance': reuse is not None,
+                    'word': w, 'expected': tt_name(want),
+                    'observed': 'a lexer configured with dictionaries %r lexes %r as %r; the first of them listing it gives %s'
+                                % (list(order), w, [(tt_name(t), v) for t, v in got][:3], tt_name(want))}
+    return None
+
+
+def config_stage(ctx, words):
+    """Configurations: every single dictionary, the reversed list, random subsets/permutations; each both as a NEW Lexer
+    object and by re-configuring ONE object again and again (a history), after the default instance has lexed the
+    same words (the main stages)."""
+    r = ctx.rng
+    nd = len(keyword_dicts())
+    orders = [[i] for i in range(nd)] + [list(range(nd - 1, -1, -1)), []]
+    for _ in range(ctx.n(6, 60)):
+        k = r.randint(1, nd)
+        orders.append(r.sample(range(nd), k))
+    sample = [w for w in words if is_word(w)]
+    fails = []
+    n = 0
+    shared = config_lexer([])
+    for o in orders:
+        ws = r.sample(sample, min(len(sample), ctx.n(150, 800)))
+        ws = [recase(r, w, r.choice(['upper', 'lower', 'mixed'])) for w in ws]
+        for reuse in (None, shared):
+            n += len(ws)
+            f = oracle_config(o, ws, reuse)
+            if f:
+                fails.append(f)
+                break
+        if fails:
+            break
+    # the default instance is unaffected by the configured ones
+    for w in r.sample(sample, min(len(sample), 200)):
+        n += 1
+        f = oracle_word('', w, '', tt_name(expected_type(w)))
+        if f:
+            f['kind'] = 'word'
+            f['observed'] += ' (after other Lexer objects had been configured)'
+            fails.append(f)
+            break
+    return fails, {'configurations': len(orders), 'word_lexings': n}
+
+
 # ---- (iii) identifiers in no dictionary -------------------------------------------------------------
 IDENT0 = 'abcdefghijklmnopqrstuvwxyzABCDEFGHIJKLMNOPQRSTUVWXYZ_'
 IDENT = IDENT0 + '0123456789'
@@ -389,6 +476,10 @@ def run(ctx):
     texts = sorted({c[1] + c[2] + c[3] for c in cases if c[1] + c[2] + c[3]})
     dis, _ = common.corr_stage('lex', texts, impl.lex_dump, 'lex')
     res['disagreements'] += dis
+    cf, cdist = config_stage(ctx, words)
+    res['failures'] += cf
+    dist['config_word_lexings'] = cdist['word_lexings']
+    dist['configurations'] = cdist['configurations']
     obs = observations(words, ctx.rng)
     notes = ['dictionary entries that are not words (unreachable through the generic word rule): %r' % skipped]
     for k, o in obs.items():
@@ -399,6 +490,8 @@ def run(ctx):
         'rule': 'every region kind x random bodies over boundary characters x contexts; every word of every registered '
                 'dictionary x casings x the 35 delimited contexts (expected type recomputed in Python from the compiled '
                 'SQL_REGEX and lexer._keywords); random identifiers in no dictionary (mutations of keywords included); '
+                'configured lexers: single dictionaries, reversed order, random sub-lists, each as a new Lexer object and as a '
+                're-configuration history of one object: every word typed by the first dictionary of THAT configuration; '
                 'lex correspondence of the extracted model on all these texts',
         'samples': [c[1] + c[2] + c[3] for c in cases[:3]] + [c[1] + c[2] + c[3] for c in cases[-3:]],
         'traces_validated_against_impl': len(texts),
@@ -411,6 +504,7 @@ def run(ctx):
 def run_oracle_only(ctx):
     cases, dist, words, skipped = build_cases(ctx)
     fails = [f for f in (oracle_case(c) for c in cases) if f]
+    fails += config_stage(ctx, words)[0]
     return {'failures': fails, 'evaluations': len(cases), 'distinct_nontrivial': 0,
             'rule': 'oracle only (model unavailable)', 'samples': [c[1] + c[2] + c[3] for c in cases[:3]],
             'distribution': {'cases': dict(dist)}}
@@ -432,6 +526,9 @@ def search(ctx, hints):
     tried = 0
     r = ctx.rng
     words = [w for w in all_words() if is_word(w)]
+    cf, _ = config_stage(ctx, all_words())
+    if cf:
+        return {'failures': cf[:1], 'tried': 1}
     while time.time() - t0 < ctx.n(60, 600):
         k = r.random()
         if k < 0.4:
@@ -451,6 +548,19 @@ def search(ctx, hints):
 
 def shrink(f):
     """Delete characters outside and inside the span while the case keeps failing (span adjusted)."""
+    if f and f.get('kind') == 'config':
+        order = list(f['order'])
+        w = f['word']
+        changed = True
+        while changed:                      # drop dictionaries while the word is still mis-typed
+            changed = False
+            for i in range(len(order)):
+                o2 = order[:i] + order[i + 1:]
+                g = oracle_config(o2, [w])
+                if g:
+                    order, f, changed = o2, g, True
+                    break
+        return f
     if not f or 'span' not in f:
         return f
     text = ''.join(map(chr, f['input']))
@@ -484,6 +594,11 @@ def shrink(f):
 
 def replay(payload):
     f = payload.get('failure')
+    if f and f.get('kind') == 'config':
+        # the history: the default instance lexes the word first, then a configured lexer
+        tokenize(f['word'])
+        g = oracle_config(f['order'], [f['word']], config_lexer([]) if f.get('reused_instance') else None)
+        return {'fails': bool(g), 'observed': g}
     if not f or 'input' not in f or 'span' not in f:
         return {'fails': False, 'note': 'no concrete case in replay file: ' + str(payload.get('no_longer_checks'))}
     exp = tuple(f['expected']) if isinstance(f['expected'], list) else f['expected']
